@@ -659,10 +659,23 @@ def validate_bounds(nodes):
 
 
 def validate_names(nodes):
-    """ A definition cannot take the name of a built-in type: every reference to it would mean the built-in. """
+    """
+    A definition cannot take the name of a built-in type: every reference to it would mean the built-in.
+    Names are identifiers (parsers other than prophy and patches take any text).
+    """
+    def check_identifier(name, where):
+        if not re.match(r"[A-Za-z_][A-Za-z0-9_]*$", name):
+            raise ModelError("'%s'%s is not an identifier" % (name, where))
+
     for node in nodes:
-        if not isinstance(node, Include) and node.name in BUILTIN_SIZES:
+        if isinstance(node, Include):
+            continue
+        if node.name in BUILTIN_SIZES:
             raise ModelError("'%s' is the name of a built-in type and cannot be defined" % node.name)
+        check_identifier(node.name, "")
+        if isinstance(node, (Enum, Struct, Union)):
+            for member in node.members:
+                check_identifier(member.name, " in %s" % node.name)
 
 
 
